@@ -443,7 +443,8 @@ fn main() {
           cases += 1;
           let got = eval(e.trim());
           let exp = expected.trim();
-          let ok = if exp == "null" { got.starts_with("VALUE null") } else { got == format!("VALUE {}", exp) };
+          // `!v`: any answer but v (and no panic / error)
+          let ok = if exp == "null" { got.starts_with("VALUE null") } else if let Some(not) = exp.strip_prefix('!') { got.starts_with("VALUE ") && got != format!("VALUE {}", not) } else { got == format!("VALUE {}", exp) };
           if !ok { nfail += 1; if failures.len() < 5 || args.get(3).map(|a| a == "all").unwrap_or(false) { failures.push(format!("{} => {} (expected {})", e.trim(), got.chars().take(160).collect::<String>(), exp)); } }
         }
       }
